@@ -415,6 +415,13 @@ fn run(sh: &mut Shard) {
                                 _ => unreachable!(),
                             })];
                             case(sh, "else-if", &printer::join_spaced(&printer::tokens_with(&asval, &style)), &asval, true);
+                            // followed by a statement that could continue an expression: the `;` must end the chain
+                            for follower in [es(array(vec![int(1)])), es(neg(int(1))), es(call(func("", &[], vec![]), vec![]))] {
+                                let mut two = prog.clone();
+                                two.push(follower);
+                                case(sh, "else-if", &printer::join_spaced(&printer::tokens_with(&two, &style)), &two, true);
+                                case(sh, "else-if", &printer::join_spaced(&printer::tokens(&two)), &two, true);
+                            }
                         }
                     }
                 }
